@@ -64,10 +64,17 @@ def main(argv):
                         # a request answered only by a stray (right user and engine id, foreign request-id / message id, other clock):
                         # it times out, and the session's clock must still be the one of the last ACCEPTED message
                         svb = ber.varbind(ber.enc_oid([1, 3, 6, 1, 2, 1, 1, 3, 0]), ber.enc_value("tt", 999))
-                        stray = {"vbs": svb.hex(), "boots": b + 3, "time": 424242, rng.choice(["rid", "msgid"]): "same+1"}
+                        stray = {"vbs": svb.hex(), "boots": b + 3, "time": 424242}
+                        how = rng.choice(["rid", "msgid", "engine-extended", "engine-prefix"])
+                        if how in ("rid", "msgid"):
+                            stray[how] = "same+1"
+                        else:
+                            # every id right, but the authoritative engine id is the session's one with an octet more / less:
+                            # another engine (e.g. 'router1' / 'router10'), not this session's agent
+                            stray["engine"] = eng + "30" if how == "engine-extended" else eng[:-2]
                         steps.append({"op": "get", "args": ["1.3.6.1.2.1.1.3.0"], "replies": [[stray]], "_stray": True})
                         stamps.append(None)
-                scs.append({"version": "v3", "mode": mode, "timeout": 0.08, "v3": v3, "steps": steps, "_stamps": stamps, "_given": given})
+                scs.append({"version": "v3", "mode": mode, "timeout": 0.2, "v3": v3, "steps": steps, "_stamps": stamps, "_given": given})
     res, log = vf.run_api_worker("C13", {"scenarios": [{k: v for k, v in sc.items() if not k.startswith("_")} for sc in scs], "model_exe": v3exe}, timeout=1200)
     stray_steps = sum(1 for sc in scs for st in sc["steps"] if st.get("_stray"))
     n = 0
@@ -153,7 +160,7 @@ def main(argv):
                             bad("request %d has context engine id %s" % (k, q.get("ctx_engine_id")), q, key="ctx-engine-id")
                 if sc["steps"][k + 1].get("_stray"):
                     if out["kind"] == "RET":
-                        bad("a reply with a foreign request-id / message id was delivered: %s" % out.get("value"), out, key="stray-delivered")
+                        bad("a reply with a foreign request-id / message id / engine id was delivered: %s" % out.get("value"), out, key="stray-delivered")
                     # expected_stamp unchanged: a rejected datagram must not move the clock
                     continue
                 idx = sum(1 for st in sc["steps"][1:k + 2] if not st.get("_stray")) - 1
